@@ -1022,8 +1022,8 @@ def model_as_probe(ctx, rec, mp):
     except Exception:  # noqa
         return
     if phi_z < phi_p - TOL_REL * max(1.0, abs(phi_p)):
-        ctx.violation(vkey(case, sk, 'minimiser'),
-                      'objective at p = {!r} but {!r} at z = {} (the model\'s proximal point)'
+        report(ctx, vkey(case, sk, 'minimiser'),
+               'objective at p = {!r} but {!r} at z = {} (the model\'s proximal point)'
                       .format(phi_p, phi_z, [round(float(v), 6) for v in mp[:8]]), rec_desc(rec))
 
 
@@ -1070,6 +1070,21 @@ def rec_desc(rec):
     case, sk, sg, xc, xlist, info, probs = rec
     return {'spec': case.spec, 'label': case.label, 'space': case.skey, 'sigma_kind': sk,
             'sigma': sg, 'x_class': xc, 'x': xlist}
+
+
+_REPORTED = {}
+
+
+def report(ctx, key, what, replay_case):
+    """ctx.violation keeps at most 200 entries: cap the repeats per key (1 for keys of open known
+    findings, 4 otherwise) so that a new failure is never crowded out by known ones."""
+    n = _REPORTED.get(key, 0)
+    _REPORTED[key] = n + 1
+    if '_known' not in _REPORTED:
+        _REPORTED['_known'] = core.load_known('C07')
+    cap = 1 if core.match_known({'key': key}, _REPORTED['_known']) is not None else 4
+    if n < cap:
+        ctx.violation(key, what, replay_case)
 
 
 def vkey(case, sk, check):
@@ -1138,9 +1153,10 @@ def iterate_cases(ctx, specs, deep=False, per_spec_sigmas=None):
 
 def run(ctx, deep=False):
     rng = ctx.rng
+    _REPORTED.clear()
     found, missing = introspect(ctx)
     specs = leaf_specs(rng, ctx.quick)
-    specs += tree_specs(rng, 120 if ctx.quick else 700)
+    specs += tree_specs(rng, 120 if ctx.quick else 500)
     recs, lines = [], []
     seen_labels = set()
     for case, sk, sg, xc, xlist in iterate_cases(ctx, specs, deep=deep):
@@ -1160,7 +1176,7 @@ def run(ctx, deep=False):
         if info['status'] != 'ok':
             ctx.err(info['status'])
         for check, text in probs:
-            ctx.violation(vkey(case, sk, check), text, rec_desc(rec))
+            report(ctx, vkey(case, sk, check), text, rec_desc(rec))
         line = model_line(case, sg, xlist)
         if line is not None:
             recs.append(rec)
@@ -1188,6 +1204,8 @@ def run(ctx, deep=False):
             ctx.disagree(rec_desc(rec), 'threshold feasible (sum = diameter)', ans[:200],
                          stream='simplex-feasibility')
     ctx.extra['functional_labels_exercised'] = len(seen_labels)
+    ctx.extra['unhit_model_branches'] = sorted(t for t in MODEL_TOKENS
+                                               if ('model/' + t) not in ctx.branches)
 
 
 def search(ctx, broken):
@@ -1206,8 +1224,8 @@ def search(ctx, broken):
             probs, info = check_case(case, sg, xlist, crng, deep=2)
             ctx.evaluations += 1
             for check, text in probs:
-                ctx.violation(vkey(case, sk, check), text,
-                              rec_desc((case, sk, sg, xc, xlist, info, probs)))
+                report(ctx, vkey(case, sk, check), text,
+                       rec_desc((case, sk, sg, xc, xlist, info, probs)))
             if len(ctx.violations) >= 20:
                 break
     finally:
